@@ -336,7 +336,10 @@ def _check(pid, tier, sc, t0, sink=None):
     known = vlib.load_known()
     bindir, err = build_shadow(sc)
     if bindir is None:
-        p = vlib.write_replay(pid, "build", dict(property=pid, engine="conc", what="the shadow copy (sources with only the sync import swapped) no longer builds",
+        where = ("the HARNESS (verifharness/…) does not compile against it — a defect of the checker, not of the library"
+                 if "verifharness/" in (err or "") and "github.com/karrick/gobptree\n" not in (err or "") else
+                 "the library sources do not compile with the sync import swapped")
+        p = vlib.write_replay(pid, "build", dict(property=pid, engine="conc", what="the shadow copy (sources with only the sync import swapped) no longer builds: " + where,
                                                   broken="correspondence: shadow build", log=err[-3000:]))
         print("VIOLATION property=%s replay=%s no-failing-input-found" % (pid, p))
         vlib.write_evidence(pid, tier, "proof", dict(obligations=1, discharged=0, checker_cmd="bin/check %s %s" % (pid, tier),
